@@ -68,6 +68,23 @@ def jobs_for(tier, rnd):
         d = body + '\n' + PRELUDE.replace('class K', 'class K') + IGN
         jobs.append((gid, d, TL, {'positions': [0, 1, 2], 'fulls': [True, False], 'kind': 'class-start', 'module_level': True}))
         gid += 1
+    # class layouts: every arrangement of up to three members over {kept field that can fail, kept field that cannot,
+    # omitted member that can fail, omitted members that cannot fail but may consume (Opt, *), omitted let}; the span of
+    # an instance is everything its members consumed, wherever the omitted and the optional ones stand (first, last, alone)
+    import itertools
+    MEMBERS = {'F': 'f{i}: D', 'O': 'o{i}: Opt(";")', 'P': 'pass ";"', 'PO': 'pass Opt(";")', 'PS': 'pass "~"*', 'LO': 'let l{i}: Opt("~")',
+               'LF': 'let l{i}: D'}
+    layouts = [l for n in (1, 2, 3) for l in itertools.product(MEMBERS, repeat=n)]
+    if tier == 'quick':
+        layouts = [l for l in layouts if len(l) < 3] + rnd.sample([l for l in layouts if len(l) == 3], 90)
+    TLY = G.texts('1;~', 4, extra=('1;;1', '1;~~1;', '1~~;1', ';1;;1;', '1;1;1;', '~~1~~1'))
+    TLI = ['1 ;', '1 ; 1 ;', ' 1;~ ~1', '1 ~ ~ ; 1', '1;\n1;', ' ; 1 ; ', '1 ;1', '1\n~\n1~']
+    for lay in layouts:
+        body = '; '.join(MEMBERS[k].format(i=i) for i, k in enumerate(lay))
+        for ign in (False, True):
+            d = 'start = [C, Opt(C), /[1;~ \\n]*/]\nclass C { ' + body + ' }\nD = /\\d/\n' + ('ignore /[ \\n]+/\n' if ign else '')
+            jobs.append((gid, d, (TLY[:80] + TLI) if ign else TLY, {'positions': [0, 1], 'fulls': [True], 'kind': 'plain', 'module_level': True, 'stratum': 'class-layouts'}))
+            gid += 1
     return jobs
 
 
@@ -253,7 +270,7 @@ def run(R):
                       'spans of instances that consumed nothing are outside the property']
     return R.finish(
         rule='grammars with nested, repeated, optional and separated classes, classes reused through the memo ([Expect(K), K]), '
-             'inside templates, with and without ignore declarations; inputs over {1,a,","} up to length 4 plus longer and multi-line '
+             'inside templates, with and without ignore declarations; class layouts (every arrangement of up to three kept/omitted, failing/optional members); inputs over {1,a,","} up to length 4 plus longer and multi-line '
              'ones; start offsets 0..2; observables: raw (start,end) of every instance, finalised (index,line,column) pairs through '
              'parse(); non-trivial = agreement with the model and not failing at offset 0',
         checker_cmd='cd /verif/coq && make -f Makefile.coq && coqc -R . SV Props/C10.v')
